@@ -324,6 +324,12 @@ fn main() {
     "inline unsorted-imports".to_string(),
     "import { Zed } from Z.Last\nimport { Mid } from M.Middle\nimport { Abc } from A.First\n\nclass Main {\n  function main(): unit = {}\n}\n".to_string(),
   ));
+  // object patterns whose alias repeats the field name (`a as a` is the same binding as `a`: a printer
+  // may normalise it, the comments around it still have to stay)
+  bases.push((
+    "inline same-name-aliases".to_string(),
+    "class Main {\n  function f(p: P): int = {\n    let { a as a, b as other } = p;\n    match p {\n      { a as a, b as b } -> a + b + other,\n    }\n  }\n}\n".to_string(),
+  ));
   // generated forms: every expression template once, in a member body
   let l0 = exprgen::level(0, &[]);
   let l1 = exprgen::level(1, &l0[..1]);
